@@ -49,13 +49,21 @@ replay files unchanged:
   Hypothesis (imported lazily):
   configs(sizes=CONFIG_SIZES, scripts=False)  strategy for config dicts; literal_values(utf8, types)(d) draws a literal
   tables(cycles=False, max_packages=3, max_types=6, max_entries=8, max_configs=5, config_sizes=CONFIG_SIZES,
-         dangling=False, value_types=None, scripts=False)
+         dangling=False, value_types=None, scripts=False, big_strings=False)
                                            strategy for well-formed tables; references form a DAG unless cycles=True,
                                            then 1-2 reference cycles of length 1..5 are added and listed in
                                            table['meta']['cycles'] ('meta' is ignored by build()). dangling=True adds
                                            null / unresolvable references; scripts=True adds configurations that carry
                                            a locale script / variant, including siblings that differ in nothing else
                                            (otherwise configurations are pairwise distinct in config_words()).
+                                           Integer-like literals are biased to BOUNDARY_WORDS (0, 1, 0x7fffffff,
+                                           0x80000000, 0xffffffff, ...) in every entry kind; some ids hold one boundary
+                                           word in all their configurations. String values, and now and then a key or
+                                           type name, sit on the length-prefix boundaries of ResStringPool strings
+                                           (boundary_text(): 127/128/129 UTF-16 units or UTF-8 bytes, non-ASCII
+                                           alphabets, so that UTF-8 pools hold strings with a one-byte UTF-16 length and a
+                                           two-byte UTF-8 length); big_strings=True adds values of 0x7fff / 0x8000 units.
+  boundary_text(d, utf8, ident=False, big=False)   one such string (d = the draw helper of the strategies)
   simple_table()                           a fixed small table (smoke tests, fuzz seeds)
 
 Well-formedness rules respected by the strategies: unique package ids/names, type ids contiguous from 1, one key per
@@ -855,19 +863,78 @@ def _text(st, utf8):
     return short, long_
 
 
-def literal_values(utf8, types=None):
-    """function draw -> [dtype, data]: literals whose printed form is unambiguous (see vf/model/arsc_values.py)"""
+# data words on the boundaries of the interpretations a parser may give to 32 bits (sign, 16/8-bit halves, the
+# NO_ENTRY / "no string" marker 0xffffffff). Legal for every integer-like Res_value (decimal, hex, boolean, colours).
+BOUNDARY_WORDS = (0, 1, 0x7fffffff, 0x80000000, 0xffffffff, 0xfffffffe, 0xffff, 0x10000, 0xff, 0x100, 0x7fff, 0x8000,
+                  0xffff0000, 0x00ffffff)
+_SPECIAL_WORDS = BOUNDARY_WORDS + (0xffffffff, 0xffffffff, 77, 0xff336699)
+INT_LIKE_TYPES = (TYPE_INT_DEC, TYPE_INT_HEX, TYPE_INT_BOOLEAN, TYPE_INT_COLOR_ARGB8, TYPE_INT_COLOR_RGB8,
+                  TYPE_INT_COLOR_ARGB4, TYPE_INT_COLOR_RGB4)
+
+# letters only (legal in resource names too), grouped by the width of their UTF-8 form; all BMP
+_ALPHABETS = [
+    '\u03b1\u03b2\u03b3\u03b4\u03b5\u03b6\u03b7\u03b8\u03b9\u03ba\u03bb\u03bc\u03bd\u03be\u03bf\u03c0\u03c1\u03c3\u03c4\u03c5\u03c6\u03c7\u03c8\u03c9\u0391\u0392\u0393\u0394\u03a9',      # Greek, 2 bytes
+    '\u0430\u0431\u0432\u0433\u0434\u0435\u0436\u0437\u0438\u0439\u043a\u043b\u043c\u043d\u043e\u043f\u0440\u0441\u0442\u0443\u0444\u044b\u044d\u044e\u044f\u0416\u042f',             # Cyrillic, 2 bytes
+    '\u00e9\u00fc\u00f1\u00e7\u00e0\u00f6\u00e5\u00df\u00f8\u017e\u00c9\u00dc',                                                  # accented Latin, 2 bytes
+    '\u3042\u3044\u3046\u3048\u304a\u304b\u304d\u304f\u3051\u3053\u30ab\u30ad\u30af\u30b1\u30b3\u30c7\u30e2',                                   # kana, 3 bytes
+    '\u4e2d\u6587\u5b57\u6f22\u8a9e\u65e5\u672c\u570b',                                                            # CJK, 3 bytes
+]
+_ASTRAL = '\U0001f600\U0001f601\U0001f642\U00010400'                 # 2 UTF-16 units each (UTF-16 pools only)
+
+
+def boundary_text(d, utf8, ident=False, big=False):
+    """A string whose length sits on a width boundary of the ResStringPool length prefixes: 127 / 128 / 129 (big: 0x7ffe
+    .. 0x8001) UTF-16 units or - in UTF-8 pools - UTF-8 bytes, made of a short random word of one alphabet repeated (few
+    draws). In a UTF-8 pool most results have fewer than 128 UTF-16 units but 128 or more bytes. ident=True: letters,
+    digits and '_' only (resource names). UTF-8 pool strings stay within 0x7fff bytes."""
+    pick = d.int(0, len(_ALPHABETS) + (0 if utf8 else 1))
+    if pick < len(_ALPHABETS):
+        alpha = _ALPHABETS[pick]
+    elif pick == len(_ALPHABETS):
+        alpha = _LOWER
+    else:
+        alpha = _ASTRAL
+    word = ''.join(d.pick(alpha) for _ in range(d.int(1, 4)))
+    if d.chance(3):
+        word += '_' if ident else d.pick(' ,x1')
+    if ident and alpha is _ASTRAL:
+        word = 'e' + word
+    by_bytes = utf8 and (big or not d.chance(3))
+    if big:
+        target = d.pick([0x7ffe, 0x7fff] if utf8 else [0x7ffe, 0x7fff, 0x8000, 0x8001])
+    else:
+        target = d.pick([127, 128, 129])
+    size = (lambda c: len(c.encode('utf-8'))) if by_bytes else _utf16_units
+    wsize = size(word)
+    out = word * (target // wsize)
+    room = target - wsize * (target // wsize)
+    for c in word:
+        if size(c) <= room:
+            out += c
+            room -= size(c)
+    out += 'x' * room
+    assert size(out) == target
+    return out
+
+
+def literal_values(utf8, types=None, big_strings=False):
+    """function draw -> [dtype, data]: literals whose printed form is unambiguous (see vf/model/arsc_values.py).
+    The returned function has an attribute .boundary: draw -> an integer-like literal holding one of BOUNDARY_WORDS
+    (None when `types` has no integer-like type)."""
     from hypothesis import strategies as st
     types = tuple(types or LITERAL_TYPES)
     short, long_ = _text(st, utf8)
-    special = [0, 1, 77, 0x7fffffff, 0x80000000, 0xffffffff, 0xff336699]
+    int_like = [t for t in types if t in INT_LIKE_TYPES]
 
     def one(d):
         t = d.pick(types)
         if t == TYPE_STRING:
-            return [t, d.draw(long_ if d.chance(12) else short)]
+            k = d.int(0, 23)
+            if k < 4:
+                return [t, boundary_text(d, utf8, big=big_strings and d.chance(12))]
+            return [t, d.draw(long_ if k < 6 else short)]
         if t == TYPE_INT_BOOLEAN:
-            return [t, d.pick([0, 1, 0xffffffff])]
+            return [t, d.pick([0, 1, 0xffffffff, 0xffffffff])]
         if t == TYPE_FLOAT:
             return [t, struct.unpack('<I', struct.pack('<f', d.int(-(1 << 16), 1 << 16) / 64.0))[0]]
         if t == TYPE_DIMENSION:
@@ -876,15 +943,21 @@ def literal_values(utf8, types=None):
             return [t, (mant << 8) | d.int(0, 5)]
         if t == TYPE_ATTRIBUTE:
             return [t, d.pick([0x01010001, 0x0101013f, 0x7f010000, 0x7f040123, 0x02030004])]
-        return [t, d.pick(special) if d.chance(3) else d.int(0, 0xffffffff)]
+        return [t, d.pick(_SPECIAL_WORDS) if d.chance(3) else d.int(0, 0xffffffff)]
+
+    def boundary(d):
+        if not int_like:
+            return None
+        return [d.pick(int_like), 0xffffffff if d.chance(3) else d.pick(BOUNDARY_WORDS)]
+    one.boundary = boundary
     return one
 
 
 def tables(cycles=False, max_packages=3, max_types=6, max_entries=8, max_configs=5, config_sizes=CONFIG_SIZES,
-           dangling=False, value_types=None, scripts=False):
+           dangling=False, value_types=None, scripts=False, big_strings=False):
     from hypothesis import strategies as st
     config_sizes = tuple(config_sizes)
-    lits = {True: literal_values(True, value_types), False: literal_values(False, value_types)}
+    lits = {True: literal_values(True, value_types, big_strings), False: literal_values(False, value_types, big_strings)}
     texts = {True: _text(st, True)[0], False: _text(st, False)[0]}
     npk_choices = [k for k in [1, 1, 1, 1, 2, 2, 2, 3, 3] if k <= max_packages]
 
@@ -934,12 +1007,16 @@ def tables(cycles=False, max_packages=3, max_types=6, max_entries=8, max_configs
         slots = []          # (resid, entry dict) in file order, for reference wiring
         ids = []
         for pi in range(npk):
+            type_utf8, key_utf8 = d.bool(), d.bool()
             ntypes = d.int(1, max_types)
             tnames = []
             while len(tnames) < ntypes:
                 x = d.ident(8) if d.chance(3) else d.pick(_KNOWN_TYPES)
                 if x not in tnames and x != 'public':
                     tnames.append(x)
+            if d.chance(10):
+                # a type name on a length-prefix boundary of the type pool
+                tnames[d.int(0, ntypes - 1)] = boundary_text(d, type_utf8, ident=True)
             types = []
             for ti, tname in enumerate(tnames, 1):
                 if ntypes > 1 and d.chance(12):
@@ -949,6 +1026,11 @@ def tables(cycles=False, max_packages=3, max_types=6, max_entries=8, max_configs
                 idxs = sorted({d.int(0, limit - 1) for _ in range(d.int(1, max_entries))})
                 n = idxs[-1] + 1 + d.pick([0, 0, 0, 1, 3])
                 keyof = dict(zip(idxs, d.idents(len(idxs), 8)))
+                if d.chance(8):
+                    # a key name on a length-prefix boundary of the key pool
+                    x = boundary_text(d, key_utf8, ident=True)
+                    if x not in keyof.values():
+                        keyof[d.pick(idxs)] = x
                 if tname in BAG_TYPES:
                     bag = True
                 elif tname in ITEM_TYPES:
@@ -957,6 +1039,16 @@ def tables(cycles=False, max_packages=3, max_types=6, max_entries=8, max_configs
                     bag = d.bool()
                 kindof = {i: 'complex' if bag else d.pick(['plain', 'plain', 'compact']) for i in idxs}
                 pubof = {i: d.pick([0, 0, FLAG_PUBLIC, FLAG_PUBLIC, FLAG_WEAK]) for i in idxs}
+                # ids that hold the same boundary data word in every configuration (mostly compact entries)
+                sticky = {}
+                if not bag:
+                    for i in idxs:
+                        if d.chance(6):
+                            v = lits[utf8].boundary(d)
+                            if v is not None:
+                                sticky[i] = v
+                                if not d.chance(3):
+                                    kindof[i] = 'compact'
                 prio = [(d.int(0, 255), k) for k in range(len(cfgs))]
                 ccfgs = [cfgs[k] for _, k in sorted(prio)[:d.int(1, len(cfgs))]]
                 chunks = []
@@ -976,9 +1068,12 @@ def tables(cycles=False, max_packages=3, max_types=6, max_entries=8, max_configs
                             base = d.pick([0x02000000, 0x01000004, 0x01010000])
                             e['items'] = [[base + k, lit()] for k in range(d.int(0, 4))]
                         else:
-                            if e['kind'] == 'plain' and d.chance(6):
-                                e['kind'] = 'compact'       # kinds may differ between configurations
-                            e['value'] = lit()
+                            if i in sticky:
+                                e['value'] = list(sticky[i])
+                            else:
+                                if e['kind'] == 'plain' and d.chance(6):
+                                    e['kind'] = 'compact'       # kinds may differ between configurations
+                                e['value'] = lit()
                         entries.append([i, e])
                         slots.append((resid(pids[pi], ti, i), e))
                     chunks.append({'config': cfg, 'offsets': d.pick(['32', '32', '16', 'sparse']), 'entries': entries})
@@ -1008,7 +1103,7 @@ def tables(cycles=False, max_packages=3, max_types=6, max_entries=8, max_configs
             if d.chance(8):
                 keys_extra += ['pad%d' % k for k in range(d.pick([130, 260, 300]))]     # key indices beyond one byte
             packages.append({'id': pids[pi], 'name': pnames[pi], 'header_size': d.pick([288, 288, 284]),
-                             'type_utf8': d.bool(), 'key_utf8': d.bool(), 'keys_extra': keys_extra, 'types': types})
+                             'type_utf8': type_utf8, 'key_utf8': key_utf8, 'keys_extra': keys_extra, 'types': types})
         # ---- references: a DAG over a random ranking of the ids (chains, diamonds, cross-package)
         ids = sorted(set(ids))
         rank = {r: (d.int(0, 0xffff), r) for r in ids}
